@@ -153,45 +153,73 @@ Definition h_ok (s : st) (pc : hpc) : Prop :=
 
 Definition spent_or_dead (pc : hpc) : Prop := pc = HSpent \/ pc = HDead.
 
+Definition AcctI (s : st) : Prop :=
+  refs s = prom (fpc s) + count live (hs s) + count held (cs s) /\
+  alive s = negb (Nat.eqb (refs s) 0) /\
+  frees s = (if alive s then 0 else 1) /\
+  under s = 0 /\ uaf s = 0 /\ (dying s = true -> alive s = false).
+
+Definition WordI (s : st) : Prop :=
+  match fpc s with
+  | F0 => slot s = Unset /\ val s = None /\ exists l, w s = WStack l
+  | F1 => (exists r, slot s = SetV r /\ val s = Some r) /\ exists l, w s = WStack l
+  | _ => w s = WRes /\ exists r, val s = Some r /\ (slot s = SetV r \/ slot s = Moved)
+  end.
+
+Definition PendI (s : st) : Prop :=
+  NoDup (pend s) /\
+  (forall c, In c (pend s) <-> cst_at (cs s) c = Some CQueued) /\
+  match fpc s with FWalk _ [] => False | _ => True end /\
+  (forall c, fir_at (cs s) c = true <-> cur s = Some c).
+
+Definition CbI (s : st) : Prop := forall c e, nth_error (cs s) c = Some e -> cb_ok s c e.
+Definition HI (s : st) : Prop := forall h pc, nth_error (hs s) h = Some pc -> h_ok s pc.
+Definition MovedI (s : st) : Prop :=
+  slot s = Moved ->
+  (forall h pc, nth_error (hs s) h = Some pc -> spent_or_dead pc) /\
+  (forall c e, nth_error (cs s) c = Some e -> cst e = CDone).
+Definition good_val (s : st) (v : option nat) : Prop := v = val s /\ v <> None.
+Definition LogI (s : st) : Prop :=
+  Forall (good_val s) (gots s) /\ Forall (good_val s) (iruns s) /\
+  Forall (fun p => fst p = true -> snd p = true) (readys s).
+Definition FailI (s : st) : Prop := nfail s = length (iruns s) + count inl_pc (hs s) + count cinl (cs s).
+
 Record Inv (s : st) : Prop := {
-  I_refs : refs s = prom (fpc s) + count live (hs s) + count held (cs s);
-  I_alive : alive s = negb (Nat.eqb (refs s) 0);
-  I_frees : frees s = if alive s then 0 else 1;
-  I_under : under s = 0;
-  I_uaf : uaf s = 0;
-  I_dying : dying s = true -> alive s = false;
-  I_word : match fpc s with
-           | F0 => slot s = Unset /\ val s = None /\ exists l, w s = WStack l
-           | F1 => (exists r, slot s = SetV r /\ val s = Some r) /\ exists l, w s = WStack l
-           | _ => w s = WRes /\ exists r, val s = Some r /\ (slot s = SetV r \/ slot s = Moved)
-           end;
-  I_nodup : NoDup (pend s);
-  I_pend : forall c, In c (pend s) <-> cst_at (cs s) c = Some CQueued;
-  I_walk : match fpc s with FWalk _ [] => False | _ => True end;
-  I_cur : forall c, fir_at (cs s) c = true <-> cur s = Some c;
-  I_cb : forall c e, nth_error (cs s) c = Some e -> cb_ok s c e;
-  I_h : forall h pc, nth_error (hs s) h = Some pc -> h_ok s pc;
-  I_moved : slot s = Moved ->
-            (forall h pc, nth_error (hs s) h = Some pc -> spent_or_dead pc) /\
-            (forall c e, nth_error (cs s) c = Some e -> cst e = CDone);
-  I_gots : Forall (fun v => v = val s /\ v <> None) (gots s);
-  I_iruns : Forall (fun v => v = val s /\ v <> None) (iruns s);
-  I_readys : Forall (fun p => fst p = true -> snd p = true) (readys s);
-  I_fail : nfail s = length (iruns s) + count inl_pc (hs s) + count cinl (cs s)
+  I_acct : AcctI s; I_wordg : WordI s; I_pendg : PendI s; I_cb : CbI s; I_h : HI s; I_moved : MovedI s;
+  I_log : LogI s; I_fail : FailI s
 }.
+
+Lemma I_refs s : Inv s -> refs s = prom (fpc s) + count live (hs s) + count held (cs s).
+Proof. intros I. apply (I_acct s I). Qed.
+Lemma I_alive s : Inv s -> alive s = negb (Nat.eqb (refs s) 0).
+Proof. intros I. apply (I_acct s I). Qed.
+Lemma I_word s : Inv s -> WordI s.
+Proof. intros I. apply (I_wordg s I). Qed.
+Lemma I_nodup s : Inv s -> NoDup (pend s).
+Proof. intros I. apply (I_pendg s I). Qed.
+Lemma I_pend s : Inv s -> forall c, In c (pend s) <-> cst_at (cs s) c = Some CQueued.
+Proof. intros I. apply (I_pendg s I). Qed.
+Lemma I_walk s : Inv s -> match fpc s with FWalk _ [] => False | _ => True end.
+Proof. intros I. apply (I_pendg s I). Qed.
+Lemma I_cur s : Inv s -> forall c, fir_at (cs s) c = true <-> cur s = Some c.
+Proof. intros I. apply (I_pendg s I). Qed.
 
 Lemma inv_init wf : Inv (init wf).
 Proof.
   assert (Hn : forall c, cst_at [] c = None) by (intros [|c]; reflexivity).
   assert (Hf : forall c, fir_at [] c = false) by (intros [|c]; reflexivity).
-  destruct wf; constructor; simpl; auto; try reflexivity; try discriminate.
-  all: try (split; [reflexivity|split; [reflexivity|eexists; reflexivity]]).
-  all: try apply Forall_nil; try apply NoDup_nil.
-  all: try (intros c; rewrite Hn; split; [intros []|discriminate]).
-  all: try (intros c; rewrite Hf; split; discriminate).
+  destruct wf; constructor.
+  all: try (unfold AcctI; simpl; repeat split; auto; discriminate).
+  all: try (unfold WordI; simpl; split; [reflexivity|split; [reflexivity|eexists; reflexivity]]).
+  all: try (unfold PendI; simpl; split; [apply NoDup_nil|split; [|split; [exact Logic.I|]]];
+            [intros c; rewrite Hn; split; [intros []|discriminate]|intros c; rewrite Hf; split; discriminate]).
   all: try (intros [|c] e H; discriminate).
-  all: try (intros [|[|h]] pc H; simpl in H; inversion H; subst; simpl; auto).
+  all: try (intros [|[|h]] pc H; simpl in H; inversion H; subst; simpl; auto; fail).
+  all: try (intros H; discriminate).
+  all: try (unfold LogI; simpl; repeat split; apply Forall_nil).
+  all: try reflexivity.
 Qed.
+
 
 (* ---- updates of the callback table ----------------------------------------------------------------------------- *)
 
@@ -380,7 +408,7 @@ Qed.
 
 Lemma word_res s : Inv s -> w s = WRes -> exists r, val s = Some r /\ (slot s = SetV r \/ slot s = Moved).
 Proof.
-  intros I Hw. pose proof (I_word s I) as H. destruct (fpc s); try (destruct H as [_ H]; exact H).
+  intros I Hw. pose proof (I_word s I) as H. unfold WordI in H. destruct (fpc s); try (destruct H as [_ H]; exact H).
   - destruct H as [_ [_ [l Hl]]]. congruence.
   - destruct H as [_ [l Hl]]. congruence.
 Qed.
@@ -503,23 +531,25 @@ Lemma inv_local s h pc0 pc' g i n r :
   Inv s -> nth_error (hs s) h = Some pc0 -> live pc0 = true -> live pc' = true ->
   h_ok s pc' ->
   (slot s = Moved -> spent_or_dead pc') ->
-  Forall (fun v => v = val s /\ v <> None) g ->
-  Forall (fun v => v = val s /\ v <> None) i ->
+  Forall (good_val s) g -> Forall (good_val s) i ->
   Forall (fun p => fst p = true -> snd p = true) r ->
   n + (if inl_pc pc0 then 1 else 0) + length (iruns s) = nfail s + (if inl_pc pc' then 1 else 0) + length i ->
   Inv (local_upd h pc' g i n r s).
 Proof.
-  intros I Hn Hl Hl' Hok Hm Hg Hi Hr Hf. unfold local_upd.
-  constructor; sf; try (apply I; fail); auto.
-  - pose proof (count_upd live _ _ _ pc' Hn) as C. rewrite Hl, Hl' in C. rewrite (I_refs s I). lia.
-  - intros c e Hc. eapply cb_ok_frame; [apply (I_cb s I); exact Hc|auto|auto|auto].
-  - intros h' pc'' Hh. rewrite nth_upd in Hh. destruct (Nat.eqb h h') eqn:E.
+  intros I Hn Hl Hl' Hok Hm Hg Hi Hr Hf. unfold local_upd. constructor.
+  - destruct (I_acct s I) as [A1 A2]. unfold AcctI. sf. split; [|exact A2].
+    pose proof (count_upd live _ _ _ pc' Hn) as C. rewrite Hl, Hl' in C. lia.
+  - exact (I_wordg s I).
+  - exact (I_pendg s I).
+  - intros c e Hc. sf. eapply cb_ok_frame; [apply (I_cb s I); exact Hc|auto|auto|auto].
+  - intros h' pc'' Hh. sf. rewrite nth_upd in Hh. destruct (Nat.eqb h h') eqn:E.
     + rewrite Nat.eqb_eq in E. subst h'. rewrite Hn in Hh. inversion Hh; subst.
       eapply h_ok_frame; [exact Hok|auto|auto|intros; eauto].
     + eapply h_ok_frame; [apply (I_h s I h'); exact Hh|auto|auto|intros; eauto].
-  - intros Hmv. destruct (I_moved s I Hmv) as [M1 M2]. split; [|exact M2].
+  - intros Hmv. sf. destruct (I_moved s I Hmv) as [M1 M2]. split; [|exact M2].
     intros h' pc'' Hh. rewrite nth_upd in Hh. destruct (Nat.eqb h h') eqn:E.
     + rewrite Nat.eqb_eq in E. subst h'. rewrite Hn in Hh. inversion Hh; subst. auto.
     + eapply M1; eauto.
-  - pose proof (count_upd inl_pc _ _ _ pc' Hn) as C. pose proof (I_fail s I). lia.
+  - unfold LogI. sf. auto.
+  - unfold FailI. sf. pose proof (count_upd inl_pc _ _ _ pc' Hn) as C. pose proof (I_fail s I) as F. unfold FailI in F. lia.
 Qed.
